@@ -235,27 +235,36 @@ def coqchk(pid):
 
 
 # ---------------------------------------------------------------- case generation / evaluation
-_ISOLATE = None
+_ISOLATE = {}
 
 
-def isolate_prefix():
+def isolate_prefix(pidns=False):
     """Run the harness in a private mount namespace with a fresh tmpfs on its scratch directory
     /var/tmp/lcv, so that concurrent checks (several properties, several worktrees) cannot wipe
-    each other's worlds.  Falls back to the shared directory where unshare -m is unavailable."""
-    global _ISOLATE
-    if _ISOLATE is None:
-        pre = ['unshare', '-m', '--propagation', 'private', 'sh', '-c',
-               'mkdir -p /var/tmp/lcv && mount -t tmpfs tmpfs /var/tmp/lcv && exec "$@"', 'sh']
-        try:
-            ok = subprocess.run(pre + ['true'], stdout=subprocess.DEVNULL, stderr=subprocess.DEVNULL, timeout=30).returncode == 0
-        except Exception:
-            ok = False
-        _ISOLATE = pre if ok else []
-    return _ISOLATE
+    each other's worlds.  With pidns (the layercake-command checks, whose process-level steps let
+    the real binary scan /proc for users of a layer) also in a private PID namespace with its own
+    /proc, so that the scan sees the processes of this run only -- a concurrent run uses the same
+    path strings in its own namespace.  Falls back to less isolation where unshare cannot do it."""
+    if pidns not in _ISOLATE:
+        tail = ['--propagation', 'private', 'sh', '-c',
+                'mkdir -p /var/tmp/lcv && mount -t tmpfs tmpfs /var/tmp/lcv && exec "$@"', 'sh']
+        choices = [['unshare', '-m'] + tail]
+        if pidns:
+            choices.insert(0, ['unshare', '-m', '-p', '-f', '--mount-proc'] + tail)
+        _ISOLATE[pidns] = []
+        for pre in choices:
+            try:
+                ok = subprocess.run(pre + ['true'], stdout=subprocess.DEVNULL, stderr=subprocess.DEVNULL, timeout=30).returncode == 0
+            except Exception:
+                ok = False
+            if ok:
+                _ISOLATE[pidns] = pre
+                break
+    return _ISOLATE[pidns]
 
 
 def run_harness(cfg, action, out, **kw):
-    cmd = isolate_prefix() + [os.path.join(RUN, 'lcv'), cfg['go'], action, '-out', out]
+    cmd = isolate_prefix(cfg.get('pidns', False)) + [os.path.join(RUN, 'lcv'), cfg['go'], action, '-out', out]
     for k, v in kw.items():
         cmd += ['-' + k, str(v)]
     rc, o = sh(cmd, timeout=cfg.get('gen_timeout', 1800), env=dict(GOENV, LCV_RUN=RUN, LCV_REPO=REPO),
